@@ -96,8 +96,13 @@ class AbstractJunction(AbstractCondition, ABC):
                 elif isinstance(
                         condition,
                         NamedQuery
-                ) and none_table not in condition.tables and not condition._inverted:
+                ) and none_table not in condition.tables and not condition._inverted and not (
+                        condition.other_condition is None and issubclass(cls, Or)
+                ):
                     # Only positive queries are merged (merging would drop the NOT).
+                    # An alternative (OR) without a further condition - the attribute
+                    # exists - is kept as it is: merging skips its missing condition,
+                    # which would lose the alternative.
                     # A merged query inner joins every table its conditions use, so
                     # alternatives (OR) are only merged when they use the same tables.
                     named_query_dict[
